@@ -157,7 +157,7 @@ def strip_visibility(text, log):
     n = 0
     out = []
     pos = 0
-    for m in re.finditer(r"\bpub\s*(\([^)]*\))?\s*", masked):
+    for m in re.finditer(r"\bpub\b\s*(\([^)]*\))?\s*", masked):
         out.append(text[pos:m.start()])
         pos = m.end()
         n += 1
@@ -267,7 +267,9 @@ def opaque_error_text(text, log):
     pos = 0
     k = 0
     for m in re.finditer(r'"\s*"\s*\.\s*to_string\(\)', masked):
-        # masked string contents are blanks: `"   "` -- find the real start quote
+        # only error *texts*: the literal must be the value of a `context:` field
+        if not re.search(r"context\s*:\s*(Some\s*\(\s*)?$", masked[max(0, m.start() - 160):m.start()]):
+            continue
         out.append(text[pos:m.start()])
         out.append("vp_str()")
         pos = m.end()
